@@ -264,6 +264,7 @@ func registerC01() {
 				cs = append(cs, c)
 			}
 			cs = append(cs, sizeSweepCases(cx)...)
+			cs = append(cs, rareSyntaxCases(cx)...)
 			return cs
 		},
 		Oracle: func(cx *CheckCtx, runs []*CaseRun) []Finding {
